@@ -107,6 +107,16 @@ class ExprBuilder:
                 return ("ref", ("static", c["static"]))
             if "fn" in c:
                 return ("fn", c.get("fn_resolved") or c["fn"])
+            if "def" in c and "promoted" in c:
+                # a promoted constant: `&CONST_ITEM` / `&literal`
+                pid = "%s::{promoted#%d}" % (c["def"], c["promoted"])
+                pb = self.b.f.bodies.get(pid)
+                if pb is not None:
+                    for _, _, s2 in pb.stmts():
+                        if s2["k"] == "assign" and s2["rv"]["k"] == "use" and "def" in s2["rv"]["a"].get("const", {}) \
+                                and "promoted" not in s2["rv"]["a"]["const"]:
+                            return ("ref", ("def", s2["rv"]["a"]["const"]["def"]))
+                return ("def", pid)
             if "def" in c:
                 return ("def", c["def"])
             if "bytes" in c:
